@@ -188,6 +188,13 @@ func (s *SwapStateMachine) SendEvent(event EventType, eventCtx EventContext) (bo
 	}
 	var err error
 
+	// Only an event the current state accepts may change the swap: the event
+	// context is applied to the swap data (and persisted) below, so an event
+	// that would be rejected anyway must be rejected before that.
+	if _, err = s.getNextState(event); err != nil {
+		return false, ErrEventRejected
+	}
+
 	// validate and apply event context
 	if eventCtx != nil {
 		err = eventCtx.Validate(s.Data)
